@@ -263,9 +263,14 @@ func kCbMissing(e *episode) []byte {
 // and the reference's maps. Such coins exceed what any chain can have minted; the model and its theorems quantify over
 // arbitrary record maps, and this is how the branches that test values against MAX_MONEY are reached.
 func (e *episode) inject(values []uint64) []*wcoin {
-	db := e.k.Ch.Unspent
 	var id [32]byte
 	copy(id[:], e.g.Bytes(32))
+	return e.injectAs(id, values)
+}
+
+// injectAs files the record under a given txid (replay: the history names it as "inject:<txid>:<v>,<v>,…").
+func (e *episode) injectAs(id [32]byte, values []uint64) []*wcoin {
+	db := e.k.Ch.Unspent
 	h := e.k.Ch.LastBlock().Height
 	mtp := e.k.Ch.LastBlock().GetMedianTimePast()
 	rec := &utxo.UtxoRec{TxID: id, InBlock: h}
@@ -292,6 +297,14 @@ func (e *episode) inject(values []uint64) []*wcoin {
 		return nil
 	}
 	e.r.Hit("inject:record-filed")
+	hs := "inject:" + hex.EncodeToString(id[:]) + ":"
+	for i, v := range values {
+		if i > 0 {
+			hs += ","
+		}
+		hs += fmt.Sprint(v)
+	}
+	e.pushHistory(hs)
 	return res
 }
 
@@ -306,6 +319,12 @@ func (e *episode) inject(values []uint64) []*wcoin {
 //	"fee-max-ok"     one transaction burning MAX_MONEY as fee          → valid (coinbase claims the subsidy only)
 func kRich(how string) kindFn {
 	return func(e *episode) []byte {
+		if e.opts.Compress {
+			// btc.CompressAmount is exact on [0, MAX_MONEY] (and far beyond), not on all of uint64: 2^63 does not survive
+			// SerializeC. Amounts above MAX_MONEY cannot enter the set through a block (MoneyRange); the injected states
+			// are an artefact of the harness and stay with the plain record format.
+			return nil
+		}
 		x := uint64(1 + e.g.Intn(1000000))
 		spend := func(ins []*wcoin, out uint64) *btc.Tx {
 			return e.buildTx(1, ins, nil, []chainkit.OutSpec{{Value: out, Script: anyone}}, 0)
@@ -433,7 +452,7 @@ func genCheckTx(g *vlib.Rng, i int) *btc.Tx {
 	return tx
 }
 
-func chkTxStream(r *vlib.Run, o *vlib.Oracle) {
+func chkTxStream(r *Run, o *vlib.Oracle) {
 	g := r.Rng.Fork()
 	n := r.N(3000, 40000)
 	for i := 0; i < n; i++ {
